@@ -1,8 +1,9 @@
-(* Tie T for C18: the regenerated translations of xmlutils.make_href and of the Location value of
-   httputils.redirect equal the hand model. *)
-From Coq Require Import List NArith Bool String.
+(* Tie T for C18: the regenerated translations of xmlutils.make_href, of the Location value of
+   httputils.redirect and of the value flow environ["PATH_INFO"] -> path of Application._handle_request
+   equal the hand model. *)
+From Coq Require Import List NArith Bool String Lia.
 Import ListNotations.
-Require Import RV.Lib.PyStr RV.Model.Url.
+Require Import RV.Lib.PyStr RV.Model.Path RV.Model.Url.
 Require RV.Gen.UrlGen.
 Open Scope N_scope.
 
@@ -11,3 +12,19 @@ Proof. reflexivity. Qed.
 
 Lemma Gen_redirect_location_eq : forall location, UrlGen.redirect_location location = redirect_location location.
 Proof. reflexivity. Qed.
+
+(* _handle_request: everything that happens to environ["PATH_INFO"] before a handler gets it (the translator
+   fails closed on any step it does not know: a further decoding, a statement that is not an assignment or an if,
+   a value other than reverse_proxy / base_prefix flowing in) is the model's request_path. *)
+Lemma Gen_request_path_eq : forall rp base pathinfo,
+  UrlGen.request_path rp base pathinfo = request_path rp base pathinfo.
+Proof.
+  intros rp base pathinfo. unfold UrlGen.request_path, request_path, strip_prefix, under_prefix, drop_prefix.
+  destruct rp; [|reflexivity].
+  destruct base as [|c base]; [reflexivity|].
+  cbn [andb nonempty].
+  replace (0 <? N.of_nat (List.length (c :: base))) with true
+    by (symmetry; apply N.ltb_lt; cbn [List.length]; lia).
+  change (str "/") with [slash].
+  destruct (startswith (sanitize_path pathinfo ++ [slash]) ((c :: base) ++ [slash])); reflexivity.
+Qed.
